@@ -491,7 +491,7 @@ func (t *NativeArrayTupleIterator[T]) NextValue() (Value, Value) {
 
 func (t *NativeArrayTupleIterator[T]) Elements() iter.Seq[Value] {
 	return func(yield func(Value) bool) {
-		for ; t.Index >= t.ArrayTuple.Length(); t.Index++ {
+		for ; t.Index < t.ArrayTuple.Length(); t.Index++ {
 			if !yield((*t.ArrayTuple)[t.Index].ToValue()) {
 				return
 			}
